@@ -314,18 +314,21 @@ def search(ctx, boost=1, focus=()):
     for k in range(2 if ctx.tier == "quick" else 6):
         pat = impl.pattern_params(rng, kinds=("circular", "background_subtraction", "radial_gradient"), rmin=2.0, rmax=4.0)
         c = int(np.ceil(pat["search"]))
-        shape = [int(rng.integers(2 * c + 6, 2 * c + 24)), int(rng.integers(1700, 2100))]
+        us = int((20, 25, 40, 20, 32, 50)[k])
+        thr = int(np.ceil(2 ** 15 / us))        # coordinate * upsample passes 2**15 here
+        long_n = thr + 420 + 2 * c
+        shape = [int(rng.integers(2 * c + 6, 2 * c + 24)), long_n]
         if k % 2:
             shape = shape[::-1]
         long_ax = int(np.argmax(shape))
         t = [0, 0]
         t[long_ax] = int(rng.integers(60, 300))
         t[1 - long_ax] = int(rng.integers(-2, 3))
-        npk = 5
+        npk = 6
         peaks = np.zeros((npk, 2), dtype=int)
-        peaks[:, long_ax] = rng.integers(1300, shape[long_ax] - c - 300, npk)
+        peaks[:, long_ax] = rng.integers(thr - 280, thr + 100, npk)       # some translated across that coordinate, some not
         peaks[:, 1 - long_ax] = rng.integers(c + 2, shape[1 - long_ax] - c - 2, npk)
         p = {"seed": int(rng.integers(1 << 30)), "pattern": pat, "shape": shape, "peaks": peaks.tolist(), "t": t,
-             "upsample": int(rng.choice([20, 25, 40]))}
+             "upsample": us}
         ctx.oracle_case("wide", p, run_case("wide", p), nontrivial=True)
         ctx.count("oracle_wide")
